@@ -225,6 +225,21 @@ CHECKS = {
              "out-of-range / wrong-type-state arguments on fresh, closed and null objects. Every case runs in its own process under ASan+UBSan.",
         note="trusted: Python codecs/sqlite3, the twin-file semantics; size arguments capped; plplot cannot be built here and is not claimed; two utf8 findings recorded (KNOWN_FINDINGS.txt)",
         design="DESIGN.md section 4, C18"),
+    "C19": dict(
+        engine="E5 proc",
+        technique="exhaustive enumeration of (program outcome class x argument vector x invocation mode) process runs of the real bloc command, compared with the in-process run of the same text through the library",
+        text="33 programs covering every outcome class (prints and succeeds, compile errors at known positions, unhandled runtime errors incl. errors inside a "
+             "function and the recursion limit, handled error, return of boolean / integer / negative / decimal / 17-digit decimal / string / empty string / "
+             "tuple / complex / null / typed null / table / bytes / nothing, output before a failure, $ARG readers, shebang, empty file) x all argument "
+             "vectors of <=1 (quick) / <=2 (thorough) items over {\"\", \"a b\", quoted, non-ASCII, -x, --out=z, -} x modes {file, - (stdin), --out=F}; 16 "
+             "expressions through -e; 10 interactive transcripts fed to -i (including errors in a while condition, a for body, a forall body and a begin "
+             "block followed by break and further loops) and 2 save/load sessions. Oracle: the in-process run of the same text with $ARG set identically: "
+             "selected output byte-equal (stdout or the --out file, the other empty), returned value printed by the documented rule, exit status 0 iff no "
+             "unhandled error, otherwise 'Error (line:column): message' / 'Error: message' on stderr with the library's position and text; interactive "
+             "transcripts (prompts, echo, banner, Elapsed removed) print the same lines in the same order as the library's statement-at-a-time run; a saved "
+             "session run again prints the same and saving the loaded session gives the same text.",
+        note="trusted: the library run as reference; the ASan build of the bloc executable; terminal colour codes are stripped",
+        design="DESIGN.md section 4, C19"),
 }
 
 NOT_YET = {}
@@ -272,6 +287,8 @@ def main():
              "kind_free_text": "cooperative scheduler over BLOC_VERIF_POINTs, depth-first iterative context bounding with fork per execution, prefix replay with divergence check; TSan free-running pass"},
             {"name": "E4 env", "path": "vf/props/c13.py, harness/vdrv.cpp (FragReader)", "serves_properties": ["C13"],
              "kind_free_text": "all environment answers with <=k deviations from the default (split points of the read stream, fixed fragment sizes, long-line alignments)"},
+            {"name": "E5 proc", "path": "vf/props/c19.py (also used by C01, C13)", "serves_properties": ["C19"],
+             "kind_free_text": "spawns build/asan/apps/bloc for every member of the product and compares with the in-process run"},
             {"name": "E2 hist", "path": "vf/core.py (explore + collect), vf/props/c08.py, vf/props/c09.py", "serves_properties": sorted(k for k, v in CHECKS.items() if v["engine"].startswith("E2")),
              "kind_free_text": "explicit-state search over operation histories: each state is rebuilt by replaying its shortest history on a fresh context, canonical dump -> dedup, invariant + model comparison in every state"},
         ],
